@@ -223,12 +223,7 @@ Proof.
     + destruct (N.eqb_spec code 0); [congruence|reflexivity].
     + subst code receive_max. rewrite N.eqb_refl. reflexivity.
     + subst code. rewrite N.eqb_refl.
-      assert (G : exists s', Ok (s2, None) = Ok (s', @None packet5) /\ s5_pub s' = s5_pub s /\ s5_rel s' = s5_rel s /\ s5_collision s' = s5_collision s
-                      /\ s5_inflight s' = s5_inflight s /\ s5_incoming s' = s5_incoming s
-                      /\ s5_events s' = s5_events s ++ [Ev5In (P5ConnAck session_present 0 receive_max topic_alias_max)]
-                      /\ s5_max s' = match receive_max with Some m => N.min m (s5_max_limit s) | None => s5_max s end)
-        by (exists s2; repeat split; auto).
-      destruct receive_max as [[|m]|]; [congruence|exact G|exact G].
+      destruct receive_max as [[|m]|]; [congruence| |]; exists s2; repeat split; auto.
   - (* publish *)
     unfold handle_incoming_publish5, outgoing_puback5, outgoing_pubrec5, outgoing_disconnect5, alias_unknown5. sproj5.
     destruct (q_alias p) as [a|] eqn:Ea.
